@@ -177,9 +177,9 @@ func (cs *CacheScen) setup(l *tledger) (CacheLike, CState) {
 		for j := 0; j < nfill; j++ {
 			c.SetForever(fillTarget+j, 1000+j)
 		}
-		thr := policyOf(CMapOfInt).grow
+		thr := growPolicy(CMapOfInt)
 		if slots == 3 {
-			thr = policyOf(CMap).grow
+			thr = growPolicy(CMap)
 		}
 		for j := 0; c.Count() <= thr; j++ {
 			c.SetForever(fillSpread+j, 2000+j)
